@@ -567,6 +567,30 @@ def r7(fx):
         data, ln, enc = f(raw, req)
         yield ob(f'bytes content (encoding={req}) is left unchanged', data is raw and ln == len(raw) and enc == want_enc, fn,
                  got=(data, ln, enc), want=(raw, len(raw), want_enc))
+    # hanzi: the text is encoded with GB2312 and nothing else, whatever other codec could also represent it (make_segment and
+    # the repository's data_to_bytes together, stopped when the bytes are there)
+    hz, md_ = C(fx, 'HANZI_ENCODING'), modes(fx)
+    real_d2b = FuncVal(fn, genv, it)
+    box = []
+
+    def d2b(*a_, **k_):
+        box.append(real_d2b(*a_, **k_))
+        raise Unknown('__bytes_are_there__')
+    genv_h = encoder_env(fx.forest, it, str=lambda x: x if isinstance(x, StrModel) else str(x), data_to_bytes=d2b)
+    for req_enc in (None, 'utf-8'):
+        s = StrModel(())
+        box.clear()
+        try:
+            FuncVal(fx.fn('encoder', 'make_segment'), genv_h, it)(s, md_['hanzi'], req_enc)
+            got = ('no call of data_to_bytes', s.tried)
+        except Unknown as u_:
+            if '__bytes_are_there__' not in str(u_) or not box:
+                raise
+            got = (box[0][2] if isinstance(box[0], tuple) and len(box[0]) == 3 else box[0], s.tried)
+        except PyRaise as e:
+            got = (f'raises {e.name}', s.tried)
+        yield ob(f'hanzi mode (encoding={req_enc}): the text is encoded with {hz} only', got == (hz, [hz]), fx.fn('encoder', 'make_segment'),
+                 got=got, want=(hz, [hz]))
     data, ln, enc = f(12345, None)
     yield ob('integers are converted through their decimal digits', (data, ln, enc) == (b'12345', 5, d), fn, got=(data, ln, enc),
              want=(b'12345', 5, d))
